@@ -1,4 +1,4 @@
-\* HAZARD, expected result: invariant NoPanic violated. Close called twice on a scorch index: close(closeCh) of a closed channel
+\* REGRESSION DETECTOR (repaired in fb2d875): with the OLD indexImpl.Close (LegacyClose2) TLC finds NoPanic violated - Close twice on scorch closes closeCh twice. The schedule is enacted on the real code on every run.
 SPECIFICATION Spec
 CONSTANTS
   Callers = {c1, c2}
@@ -9,8 +9,8 @@ CONSTANTS
   MaxMerges = 0
   PauseMode = "none"
   HazFD = FALSE
-  HazClose2 = TRUE
-  HazFMMem = FALSE
+  LegacyClose2 = TRUE
+  LegacyFMMem = FALSE
 
 INVARIANTS TypeOK RWExclusion LockBalanced NoPanic ContractHolds
   CloseReturnMeansStopped WriterMeansQuiescent BatchNeverSeesClose NoOrphanAck ForceMergeSingle
